@@ -93,8 +93,11 @@ def project(weights,
   if range_dominances:
     range_dominances = [(j, i) for i, j in range_dominances]
     scalings = [-1.0 if m == -1 else 1.0 for m in monotonicities]
+    # Only the dimensions which take part in a range dominance are compared by
+    # their ranges (verified to be positive); the others keep their weights.
+    range_dims = set(dim for pair in range_dominances for dim in pair)
     for dim, (lower, upper) in enumerate(zip(input_min, input_max)):
-      if lower is not None and upper is not None:
+      if dim in range_dims and lower is not None and upper is not None:
         scalings[dim] *= upper - lower
     scalings = tf.constant(
         scalings, dtype=weights.dtype, shape=(weights.shape[0], 1))
